@@ -44,9 +44,10 @@ def one_case(ctx, vals, kind, strikes, notional, df, controls, spot_stats, tag):
     cls = dict(kind=tag, dim=len(strikes), ncontrols=len(controls))
     product = make_product(None, kind, strikes, notional)
     cps, cprices = [], []
-    for ck, cstrike, cprice in controls:
+    controls = [tuple(c) + (1.0,) * (4 - len(c)) for c in controls]        # (kind, strike, price, notional)
+    for ck, cstrike, cprice, cnot in controls:
         cps.append(Product(payoff_underlying=Spot(), payoff=Forward(strike=cstrike) if ck == "forward" else
-                           Vanilla(strike=cstrike, payoff_type=PayoffType.CALL), maturity=fe.T))
+                           Vanilla(strike=cstrike, payoff_type=PayoffType.CALL), maturity=fe.T, notional=cnot))
         cprices.append(cprice)
     try:
         with np.errstate(all="ignore"):
@@ -97,7 +98,7 @@ def one_case(ctx, vals, kind, strikes, notional, df, controls, spot_stats, tag):
     adj_price = np.atleast_1d(st.price()).astype(float)
     adj_err = np.atleast_1d(st.mc_stddev()).astype(float)
     adj_rows = np.array(st._payoff_statistics_with_cv.stats, dtype=float)
-    xs = [[df * payoff_value(ck, cs, s) for s in vals] for ck, cs, _ in controls]
+    xs = [[df * cn * payoff_value(ck, cs, s) for s in vals] for ck, cs, _, cn in controls]
     if adj_rows.shape != rows.shape:
         ctx.fail("oracle", "c07.cv_shape", desc, {"adjusted": adj_rows.shape, "raw": rows.shape}, cls=cls)
         return
@@ -112,7 +113,12 @@ def one_case(ctx, vals, kind, strikes, notional, df, controls, spot_stats, tag):
             return
         # the adjusted price is the mean of Y - b*(X - price_X) for some b: recover b by least squares on the stored rows
         if n > len(controls) + 1 and float(adj_err[j]) > float(raw_err[j]) * (1 + 1e-9) + 1e-13:
-            ctx.fail("oracle", "c07.cv_variance", desc, {"component": j, "adjusted_err": float(adj_err[j]), "raw_err": float(raw_err[j])}, cls=cls)
+            sx = np.atleast_2d(np.cov(X, bias=True))
+            with np.errstate(all="ignore"):
+                cond = float(np.linalg.cond(sx)) if np.all(np.isfinite(sx)) else float("inf")
+            ctx.fail("oracle", "c07.cv_variance", desc, {"component": j, "adjusted_err": float(adj_err[j]), "raw_err": float(raw_err[j]),
+                                                          "cond_sigma_x": cond},
+                     cls=dict(cls, singular_sigma_x=bool(cond > 1e12 and len(controls) >= 2)))
             return
         if len(controls) == 1:
             out = ctx.lean(f"cv1 {w(controls[0][2])} {wl(xs[0])} {wl(ys[j])}").split(" ")
@@ -145,12 +151,11 @@ def gen_case(rng):
     for _ in range(nc):
         ck = rng.choice(["forward", "call"])
         cs = base * rng.choice([0.5, 0.875, 1.0])
-        xs = [df * payoff_value(ck, cs, s) for s in vals]
+        cn = rng.choice([1.0, 1.0, 2.5, 0.5, 10.0])             # the control products carry their own notional
+        xs = [df * cn * payoff_value(ck, cs, s) for s in vals]
         exact = float(np.mean(xs))
         cprice = exact if rng.random() < 0.5 else exact + rng.choice([-0.25, 0.125, 0.5])
-        controls.append((ck, cs, cprice))
-    if d > 1:
-        controls = [(ck, cs, cp) for ck, cs, cp in controls]
+        controls.append((ck, cs, cprice, cn))
     return vals, kind, strikes, notional, df, controls, rng.random() < 0.3
 
 
@@ -160,8 +165,9 @@ def run(ctx):
         vals, kind, strikes, notional, df, controls, spot = gen_case(rng)
         one_case(ctx, vals, kind, strikes, notional, df, controls, spot, "random")
     # directed: constant control (fallback b* = 0), constant payoff, two paths
-    one_case(ctx, [1.0, 2.0, 3.0, 4.0], "call", [0.0], 1.0, 1.0, [("call", 10.0, 0.0)], False, "constant_control")
-    one_case(ctx, [5.0, 5.0, 5.0], "call", [1.0], 1.0, 0.5, [("forward", 1.0, 2.0)], False, "constant_payoff")
+    one_case(ctx, [1.0, 2.0, 3.0, 4.0], "call", [0.0], 1.0, 1.0, [("call", 10.0, 0.0, 1.0)], False, "constant_control")
+    one_case(ctx, [5.0, 5.0, 5.0], "call", [1.0], 1.0, 0.5, [("forward", 1.0, 2.0, 1.0)], False, "constant_payoff")
+    one_case(ctx, [1.0, 2.0, 4.0, 3.0], "call", [2.0], 3.0, 0.5, [("forward", 1.5, 0.5 * 2.5 * 1.0, 2.5)], False, "control_notional")
     one_case(ctx, [1.0, 3.0], "put", [2.0, 4.0], 2.0, 0.5, [], True, "two_paths_vector")
 
 
